@@ -85,64 +85,80 @@ ExtStatus(f) ==
   ELSE "no"
 
 -----------------------------------------------------------------------------
-(* the expectation for one case: cwd, files, inputs, ign, filt *)
+(* the expectation for one case c = [cwd, files, inputs, ign, filt, checked] *)
 
-FileId(c, f) == Canon(Join(c.cwd, f))                 \* canonical absolute path of a file of the tree
-Loc(c, x)    == Canon(PathString(x, c.cwd))           \* canonical absolute path an input / a reported name denotes
-
-\* input path x names the file itself / a directory above the file
-Names(c, x, f) == Loc(c, x) = FileId(c, f)
-Above(c, x, f) ==
-  LET d == Loc(c, x) id == FileId(c, f)
-  IN Len(id) > Len(d) /\ SubSeq(id, 1, Len(d)) = d /\ (d = <<Sep>> \/ id[Len(d) + 1] = Sep)
-Reaches(c, x, f) == Names(c, x, f) \/ Above(c, x, f)
-
-\* the canonical name under which f is reported when found through x: the input path as given, followed by
-\* the way from there to the file
-NameVia(c, x, f) ==
-  IF Names(c, x, f) THEN Canon(x)
-  ELSE LET d == Loc(c, x) id == FileId(c, f)
-           rest == SubSeq(id, (IF d = <<Sep>> THEN 2 ELSE Len(d) + 2), Len(id))
-       IN Canon(x \o <<Sep>> \o rest)
+\* is directory d (a canonical absolute path) above the canonical absolute path id
+AboveId(d, id) == Len(id) > Len(d) /\ SubSeq(id, 1, Len(d)) = d /\ (d = <<Sep>> \/ id[Len(d) + 1] = Sep)
 
 \* three-valued conjunction over {"yes", "no", "open"}
 All3(S) == IF "no" \in S THEN "no" ELSE IF "open" \in S THEN "open" ELSE "yes"
-\* "yes" if some pattern of the list must match the file, "open" if none must but one may
-Some3(c, pats, f) ==
-  LET V == {Verdict(pats[k], FileId(c, f), c.cwd, "reg") : k \in DOMAIN pats}
-  IN IF "T" \in V THEN "yes" ELSE IF "Open" \in V THEN "open" ELSE "no"
 Not3(v) == IF v = "yes" THEN "no" ELSE IF v = "no" THEN "yes" ELSE "open"
+Best3(S) == IF "yes" \in S THEN "yes" ELSE IF "open" \in S THEN "open" ELSE "no"
 
-\* is f analysed when reached through x
-Selected(c, x, f) ==
-  All3({ IF Names(c, x, f) THEN (IF ExtStatus(f) = "yes" THEN "yes" ELSE "open") ELSE ExtStatus(f),
-         Not3(Some3(c, c.ign, f)),
-         IF c.filt = <<>> THEN "yes" ELSE Some3(c, c.filt, f) })
+\* The facts of a case:
+\*   fid[f]    canonical absolute path of file f of the tree
+\*   loc[x]    canonical absolute path that input path x denotes
+\*   via[f]    the input paths through which f is reached: x names f itself, or a directory above f
+\*   ign[f], filt[f]  "yes" if some pattern of the list must match f, "open" if none must but one may
+\*   status[f] is f analysed: "yes", "no", "open"
+\* (Each table is handed on as an operator argument and forced with TLCEval: TLC evaluates an argument once,
+\*  whereas a LET definition is evaluated again at every use.)
+Some3(pinfos, ti) ==
+  LET V == {VerdictI(pinfos[k], ti, "reg") : k \in DOMAIN pinfos}
+  IN IF "T" \in V THEN "yes" ELSE IF "Open" \in V THEN "open" ELSE "no"
 
-Files(c)  == ToSet(c.files)
-Inputs(c) == ToSet(c.inputs)
-Via(c, f) == {x \in Inputs(c) : Reaches(c, x, f)}
-Status(c, f) ==
-  LET S == {Selected(c, x, f) : x \in Via(c, f)}
-  IN IF "yes" \in S THEN "yes" ELSE IF "open" \in S THEN "open" ELSE "no"
+Facts4(c, F, X, fid, loc, via, ign, filt) ==
+  LET \* f reached through x: named explicitly (a documented extension is certainly analysed, anything else
+      \* is left open) or found by traversal (the extension decides)
+      selected(x, f) == All3({ IF loc[x] = fid[f] THEN (IF ExtStatus(f) = "yes" THEN "yes" ELSE "open") ELSE ExtStatus(f),
+                               Not3(ign[f]), filt[f] })
+  IN [F |-> F, X |-> X, fid |-> fid, loc |-> loc, via |-> via,
+      status |-> [f \in F |-> Best3({selected(x, f) : x \in via[f]})]]
+Facts3(c, F, X, fid, loc, via, tinfo, igninfo, filtinfo) ==
+  Facts4(c, F, X, fid, loc, via,
+         TLCEval([f \in F |-> IF via[f] = {} THEN "no" ELSE Some3(igninfo, tinfo[f])]),
+         TLCEval([f \in F |-> IF via[f] = {} \/ c.filt = <<>> THEN "yes" ELSE Some3(filtinfo, tinfo[f])]))
+Facts2(c, F, X, fid, loc) ==
+  Facts3(c, F, X, fid, loc,
+         TLCEval([f \in F |-> {x \in X : loc[x] = fid[f] \/ AboveId(loc[x], fid[f])}]),
+         TLCEval([f \in F |-> PathInfo(fid[f], c.cwd)]),
+         TLCEval([k \in DOMAIN c.ign |-> PatInfo(c.ign[k], c.cwd)]),
+         TLCEval([k \in DOMAIN c.filt |-> PatInfo(c.filt[k], c.cwd)]))
+Facts1(c, F, X) ==
+  Facts2(c, F, X, TLCEval([f \in F |-> Canon(Join(c.cwd, f))]), TLCEval([x \in X |-> Canon(PathString(x, c.cwd))]))
+Facts(c) == TLCEval(Facts1(c, ToSet(c.files), ToSet(c.inputs)))
 
-MustIds(c) == {FileId(c, f) : f \in {g \in Files(c) : Status(c, g) = "yes"}}
-MayIds(c)  == {FileId(c, f) : f \in {g \in Files(c) : Status(c, g) # "no"}}
+\* the canonical name under which f is reported when found through x: the input path as given, followed by
+\* the way from there to the file
+NameVia(e, x, f) ==
+  IF e.loc[x] = e.fid[f] THEN Canon(x)
+  ELSE LET d == e.loc[x] id == e.fid[f]
+           rest == SubSeq(id, (IF d = <<Sep>> THEN 2 ELSE Len(d) + 2), Len(id))
+       IN Canon(x \o <<Sep>> \o rest)
 
-\* what is wrong with the observed sequence of reported names (empty sets / FALSE = nothing)
-Judgement(c) ==
-  LET obs  == c.checked
-      ids  == [k \in DOMAIN obs |-> Loc(c, obs[k])]
-      file(id) == CHOOSE f \in Files(c) : FileId(c, f) = id
-      known == {k \in DOMAIN obs : \E f \in Files(c) : FileId(c, f) = ids[k]}
-      \* files that belong to exactly one input path, per input path, in the observed order
-      own(x) == SelectSeq(obs, LAMBDA n : \E f \in Files(c) : FileId(c, f) = Loc(c, n) /\ Via(c, f) = {x})
+\* what is wrong with the observed sequence obs of reported names (empty sets = nothing), and two measures;
+\* e = Facts(c), ids[k] = the canonical absolute path that obs[k] denotes
+Judgement3(c, e, obs, ids, must, may, fileOf) ==
+  LET known == {k \in DOMAIN obs : ids[k] \in DOMAIN fileOf}
+      \* the observed files that belong to exactly one input path x, in the observed order
+      ownIdx(x) == SelectSeq([k \in DOMAIN obs |-> k], LAMBDA k : k \in known /\ e.via[fileOf[ids[k]]] = {x})
+      own(x) == [n \in DOMAIN ownIdx(x) |-> obs[ownIdx(x)[n]]]
   IN [id |-> c.id,
-      missing    |-> MustIds(c) \ ToSet(ids),                                  \* must be analysed, is not
-      unexpected |-> ToSet(ids) \ MayIds(c),                                   \* analysed, must not be
+      missing    |-> must \ ToSet(ids),                                        \* must be analysed, is not
+      unexpected |-> ToSet(ids) \ may,                                         \* analysed, must not be
       twice      |-> {ids[k] : k \in {n \in DOMAIN ids : \E m \in DOMAIN ids : m < n /\ ids[m] = ids[n]}},
-      badname    |-> {obs[k] : k \in {n \in known : obs[n] \notin {NameVia(c, x, file(ids[n])) : x \in Via(c, file(ids[n]))}}},
-      unsorted   |-> {x \in Inputs(c) : ~Sorted(own(x))}]
+      badname    |-> {obs[k] : k \in {n \in known : obs[n] \notin {NameVia(e, x, fileOf[ids[n]]) : x \in e.via[fileOf[ids[n]]]}}},
+      unsorted   |-> {x \in e.X : ~Sorted(TLCEval(own(x)))},
+      \* the patterns decide something: a file with a documented source extension under an input path is excluded
+      deciding   |-> \E f \in e.F : e.via[f] # {} /\ ExtStatus(f) = "yes" /\ e.status[f] = "no",
+      withopen   |-> must # may]
+Judgement2(c, e) ==
+  Judgement3(c, e, c.checked,
+             TLCEval([k \in DOMAIN c.checked |-> Canon(PathString(c.checked[k], c.cwd))]),
+             {e.fid[f] : f \in {g \in e.F : e.status[g] = "yes"}},
+             {e.fid[f] : f \in {g \in e.F : e.status[g] # "no"}},
+             TLCEval([id \in {e.fid[f] : f \in e.F} |-> CHOOSE f \in e.F : e.fid[f] = id]))
+Judgement(c) == Judgement2(c, Facts(c))
 
 Fine(j) == j.missing = {} /\ j.unexpected = {} /\ j.twice = {} /\ j.badname = {} /\ j.unsorted = {}
 Printable(j) == [id |-> j.id, missing |-> SetToSeq(j.missing), unexpected |-> SetToSeq(j.unexpected),
@@ -160,12 +176,12 @@ M == 46337
 Mix(x, k) == (x * x + k) % M
 Rnd(c, d) == Mix(Mix(Mix((Params.seed * 7919 + c * 104729 + d * 1299709 + 12345) % M, c % M), d), 77)
 
-Pick(S, c, d) == LET q == SetToSeq(S) IN q[1 + Rnd(c, d) % Len(q)]
+Pick(S, c, d) == LET q == SetToSeq(S) IN q[1 + (Rnd(c, d) % Len(q))]
 
 \* the tree of case c: every file of the menu with probability about 1/3 (at least one)
 TreeOf(c) ==
   LET T == {i \in DOMAIN Params.files : Rnd(c, i) % 3 = 0}
-  IN IF T = {} THEN {Params.files[1 + Rnd(c, 50) % Len(Params.files)]} ELSE {Params.files[i] : i \in T}
+  IN IF T = {} THEN {Params.files[1 + (Rnd(c, 50) % Len(Params.files))]} ELSE {Params.files[i] : i \in T}
 
 \* the directories of a tree (as relative paths) and the ways to spell a directory or a file as input path
 DirsOf(T) == UNION {{Flatten(SubSeq(Comps(f), 1, n), TRUE) : n \in 1..(Len(Comps(f)) - 1)} : f \in T}
@@ -189,13 +205,13 @@ InputOf(T, c, d) ==
      ELSE IF r < 6 THEN Pick(ch.dirs, c, d + 1)
      ELSE Pick(ch.files, c, d + 1)
 
-PatOf(c, d) == Params.pats[1 + Rnd(c, d) % Len(Params.pats)]
+PatOf(c, d) == Params.pats[1 + (Rnd(c, d) % Len(Params.pats))]
 
 CaseOf(c) ==
   LET T == TreeOf(c)
       nin == IF Rnd(c, 60) % 4 = 0 THEN 2 ELSE 1
       nign == Rnd(c, 61) % 3                       \* 0, 1 or 2 -i patterns
-      nfilt == IF Rnd(c, 62) % 3 = 0 THEN 1 + Rnd(c, 63) % 2 ELSE 0
+      nfilt == IF Rnd(c, 62) % 3 = 0 THEN 1 + (Rnd(c, 63) % 2) ELSE 0
   IN [id |-> c, files |-> SetToSeq(T),
       inputs |-> [k \in 1..nin |-> InputOf(T, c, 70 + 2 * k)],
       ign  |-> [k \in 1..nign |-> PatOf(c, 80 + k)],
@@ -210,10 +226,9 @@ Gen(dummy) == /\ ndJsonSerialize(IOEnv.CASES, [c \in 1..Params.n |-> CaseOf(c)])
 Obs == IF IOEnv.STEP = "judge" THEN ndJsonDeserialize(IOEnv.OBS) ELSE <<>>
 Verdicts == TLCEval([k \in DOMAIN Obs |-> Judgement(Obs[k])])
 BadCases == {k \in DOMAIN Obs : ~Fine(Verdicts[k])}
-\* measured: cases in which the patterns decide something (a file of the tree that has a source extension
-\* and lies under an input path is excluded), cases with an open membership
-Deciding == {k \in DOMAIN Obs : \E f \in Files(Obs[k]) : Via(Obs[k], f) # {} /\ ExtStatus(f) = "yes" /\ Status(Obs[k], f) = "no"}
-WithOpen == {k \in DOMAIN Obs : MustIds(Obs[k]) # MayIds(Obs[k])}
+\* measured: cases in which the patterns decide something, cases with an open membership
+Deciding == {k \in DOMAIN Obs : Verdicts[k].deciding}
+WithOpen == {k \in DOMAIN Obs : Verdicts[k].withopen}
 RECURSIVE SumRange(_, _, _)
 SumRange(f(_), lo, hi) == IF lo > hi THEN 0 ELSE IF lo = hi THEN f(lo)
                           ELSE LET mid == (lo + hi) \div 2 IN SumRange(f, lo, mid) + SumRange(f, mid + 1, hi)
